@@ -31,6 +31,10 @@ def _build(part):
                                                     flags=["-std=c++17", "-O1", "-g", "-fsanitize=thread"])
 ths = [threading.Thread(target=_build, args=(p,)) for p in PARTS]
 for t in ths: t.start()
+# the Makefile's extraction rule does not know that the model depends on the regenerated constants: re-extract when they are newer
+_gen = os.path.join(verif.COQ, "gen", "Sizes_C03_gen.v"); _ml = os.path.join(verif.VERIF, "ocaml", "gen", "C03_model.ml")
+if os.path.exists(_gen) and os.path.exists(_ml) and os.path.getmtime(_ml) < os.path.getmtime(_gen):
+    os.utime(os.path.join(verif.COQ, "Extract_C03.v"), None)
 drv, dlog = ck.ocaml_driver("C03")
 for t in ths: t.join()
 
@@ -73,6 +77,9 @@ SHAPES = ["random", "random", "random", "chain", "dups", "sharedprefix", "allequ
 MEMS = [0, 1, 64, 4096, 10 ** 5, 10 ** 7, SIZE_MAX]
 REPNAMES = ["UChar", "CUChar", "StdString", "UPtr", "Suffix", "Char", "CChar"]
 sizes = getattr(ck, "c03_sizes", {})
+THR = getattr(ck, "c03_thresholds", None) or {"inssort": 32, "radix16": 65536, "mkqs": 32, "slack": [3, 3, 3, 3, 3]}   # as regenerated from /repo
+T_INS, T_MK, T_R16 = THR["inssort"], THR["mkqs"], THR["radix16"]
+S_CE0, S_CE2, S_CE3, S_CI2, S_CI3 = THR["slack"]
 
 def threshold_mems(rep, lcp, n):
     """memory values at the case-split boundaries of the dispatch chain for this instantiation"""
@@ -80,8 +87,8 @@ def threshold_mems(rep, lcp, n):
     if not row: return []
     szt, sset, sstr, sit, ce0, ce2, ce3, ci2, ci3, u8, u16 = row
     base = 2 * szt + sset
-    ts = [base + n * u16 + n * sstr + 3 * ce3 + 1, base + n * u8 + n * sstr + 3 * ce2 + 1, base + n * u16 + 3 * ci3 + 1,
-          base + n * u8 + 3 * ci2 + 1, base + n * sstr + 3 * ce0 + 1, 2 * szt + sset + 5 * sit + 1]
+    ts = [base + n * u16 + n * sstr + S_CE3 * ce3 + 1, base + n * u8 + n * sstr + S_CE2 * ce2 + 1, base + n * u16 + S_CI3 * ci3 + 1,
+          base + n * u8 + S_CI2 * ci2 + 1, base + n * sstr + S_CE0 * ce0 + 1, 2 * szt + sset + 5 * sit + 1]
     out = []
     for t in ts: out += [t - 1, t, t + 1]
     # enough for the top-level step but only k more stack levels: forces the in-loop multikey_quicksort fall-back
@@ -97,7 +104,7 @@ def gen_small():
     lcp = rng.below(2)
     r = rng.below(100)
     if r < 45: n = rng.below(41)
-    elif r < 68: n = rng.choice([31, 32, 33])
+    elif r < 68: n = rng.choice(sorted(set([T_INS - 1, T_INS, T_INS + 1, T_MK - 1, T_MK, T_MK + 1])))    # the cut-offs to insertion sort
     elif r < 89: n = 34 + rng.below(90)
     elif r < 98: n = 130 + rng.below(170)
     else: n = 300 + rng.below(500)
@@ -150,13 +157,13 @@ def gen_big(n, kind, algo, rep, lcp, mem):
         seen = set(); strs = []
         def group(s, g):
             if s not in seen: seen.add(s); strs.extend([s] * g)
-        group(pre, rng.choice([1, 2, 31, 32, 33]))
+        group(pre, rng.choice([1, 2, T_INS - 1, T_INS, T_INS + 1]))
         for L in (1, 2, 3):
-            for g in (1, 2, 31, 32, 33):
+            for g in (1, 2, T_INS - 1, T_INS, T_INS + 1):
                 for _ in range(2):
                     group(pre + bytes(gch[rng.below(len(gch))] for _ in range(L)), g)
         one = bytes([gch[rng.below(len(gch))]])              # a short group and longer groups behind the same first byte
-        group(pre + one, 2); group(pre + one + b"ab", 31); group(pre + one + b"a", 33)
+        group(pre + one, 2); group(pre + one + b"ab", T_INS - 1); group(pre + one + b"a", T_INS + 1)
         while len(strs) < n: strs.append(pre + bytes(b"abc"[rng.below(3)] for _ in range(4 + rng.below(4))))
         for i in range(len(strs) - 1, 0, -1):                 # shuffle
             j = rng.below(i + 1); strs[i], strs[j] = strs[j], strs[i]
@@ -219,8 +226,10 @@ if not ck.replay:
                 (65536, "dups", 0, 2, 0, 10 ** 7), (131072, "nested", 3, 1, 1, 0), (65537, "abc", 2, 3, 1, 10 ** 6),
                 (66000, "full", 5, 0, 1, 1700000), (65536, "abc", 1, 1, 0, 0), (65537, "dups", 3, 3, 0, 0),
                 (65600, "full", 4, 0, 1, 0), (65536, "abc", 0, 0, 0, 0)]
+    def adj(n):      # sizes are written for the shipped 16-bit switch-over of 65536 strings; follow the regenerated one
+        return n + (T_R16 - 65536) if n in (65535, 65536, 65537) else n if n >= T_R16 + 400 else T_R16 + 464
     for (n, kind, algo, rep, lcp, mem) in big:
-        c, m = gen_big(n, kind, algo, rep, lcp, mem); cases.append(c); meta.append(m)
+        c, m = gen_big(adj(n), kind, algo, rep, lcp, mem); cases.append(c); meta.append(m)
 
 tick('generated')
 # ---------------------------------------------------------------- run
@@ -354,7 +363,12 @@ else:
                 continue
             agree["canon_agree"] += 1
             if r["exact"] == "1": agree["exact_object_order_agree"] += 1
-            elif r["exact"] == "0": agree["exact_object_order_differs"] += 1
+            elif r["exact"] == "0":
+                agree["exact_object_order_differs"] += 1
+                ovx = int(cases[i].split(" ", 3)[2])
+                if not (rep in (0, 1, 5, 6) and ovx >= (20 if algo == 0 else 10)):      # aliased buffers: ids of equal strings are interchangeable
+                    agree["exact_object_order_differs_without_aliasing"] = agree.get("exact_object_order_differs_without_aliasing", 0) + 1
+                    agree.setdefault("first_order_difference", "%s on %s n=%d mem=%d view/ov=%d" % (ALGON[algo], REPNAMES[rep], n, mem, ovx))
             if r["lcp0"] == "1": agree["lcp0_untouched"] += 1
             elif r["lcp0"] == "0": agree["lcp0_touched"] += 1
         for i in (0, ncorpus, ncorpus + 1, ncorpus + 2):
@@ -374,7 +388,7 @@ if translator_error is None and all(builds[p][0] for p in PARTS) and drv is not 
     cbig = []
     for (n_, kind, algo, rep_, mem) in ((66000, "abc", 3, 0, 0), (66000, "groups0", 5, 0, 0), (66000, "full", 0, 0, 0),
                                         (66000, "abc", 0, 2, 0), (70000, "groups0", 0, 2, 2000000)):
-        pair = [gen_big(n_, kind, algo, rep_, 1, mem) for _ in range(2)]
+        pair = [gen_big(adj(n_), kind, algo, rep_, 1, mem) for _ in range(2)]
         for _round in range(1):
             for c, m in pair: cbig.append((c, m))
     conc["big_cases"] = len(cbig)
